@@ -125,6 +125,9 @@ class C03(Plugin):
         for m in gen_markup.phase_directed(gen_markup.dispatch_keys()):
             out.append({"k": 1, "tree": "dom" if len(out) % 2 else "etree", "ns": True, "fragment": False, "container": "div",
                         "scripting": False, "markup": m})
+        for c, m in gen_markup.fragment_directed(gen_markup.dispatch_keys()):
+            out.append({"k": 1, "tree": "dom" if len(out) % 2 else "etree", "ns": True, "fragment": True, "container": c,
+                        "scripting": False, "markup": m})
         for ex in [None] + IMPLIED:
             out.append({"k": 0, "stack": ["div"] + IMPLIED * 2, "exclude": ex})
         return out
